@@ -835,8 +835,16 @@ def main():
         ks = [a.only]
     else:
         ks = [k for k in range(a.cases) if k % sn == si and k >= a.from_]
+    # self-test hooks of the driver (lib/c20.py): die / hang on one case as a Rust abort / a stuck call would
+    abort_at = os.environ.get("VERIF_C20_SELFTEST_ABORT")
+    hang_at = os.environ.get("VERIF_C20_SELFTEST_HANG")
     for k in ks:
         emit({"ev": "begin", "case": k})
+        if abort_at is not None and int(abort_at) == k:
+            os.abort()
+        if hang_at is not None and int(hang_at) == k:
+            import time
+            time.sleep(100000)
         emit(run_case(a.seed, k, a.scratch))
     emit({"ev": "done"})
 
